@@ -9,3 +9,6 @@ for prop in "$@"; do
   out=$(cd /verif && ./check $prop 2>/dev/null | grep -E "^(VIOLATION|OK|KNOWN)" | grep -v KNOWN | head -2 | tr '\n' ' ')
   echo "$prop: $out"
 done
+# leave the generated tables and the harness in sync with the (restored) tree
+git -C /repo checkout -- . ; trap - EXIT
+python3 /verif/translate/avt2coq.py /repo/src /verif/coq/Gen >/dev/null 2>&1
